@@ -593,6 +593,7 @@ type epoch struct {
 	seed     int64
 	idx      int
 	tier     string
+	race     bool // weights for the race-detector pass: more re-logins, overlapping udp work connections, bursts before drops
 	directed string
 	g        *hx.Gen
 	srv      *fakeSrv
@@ -1153,7 +1154,11 @@ func (e *epoch) userTraffic(g *hx.Gen) string {
 // one barrage step on the current session; returns kind, type, detail and whether the session is over.
 func (e *epoch) barrageStep(cs *ctlSess) (kind, typ, detail string, over bool) {
 	g := e.g
-	switch []int{0, 0, 0, 0, 0, 0, 0, 0, 0, 1, 1, 1, 1, 1, 2, 2, 2, 2, 3, 3, 3, 4, 4, 4, 4, 5, 5, 6, 7, 8, 8, 8}[g.Intn(32)] {
+	weights := []int{0, 0, 0, 0, 0, 0, 0, 0, 0, 1, 1, 1, 1, 1, 2, 2, 2, 2, 3, 3, 3, 4, 4, 4, 4, 5, 5, 6, 7, 8, 8, 8}
+	if e.race {
+		weights = []int{0, 0, 0, 0, 1, 1, 1, 1, 1, 1, 2, 3, 4, 4, 4, 5, 6, 7, 7, 7, 8, 8, 8, 8, 8, 8}
+	}
+	switch weights[g.Intn(len(weights))] {
 	case 0: // a field-mutated message of any of the 18 types (both directions) on the control channel
 		m := msgProtos[g.Intn(len(msgProtos))]()
 		mutate(g, reflect.ValueOf(m).Elem())
@@ -1240,6 +1245,12 @@ func (e *epoch) barrageStep(cs *ctlSess) (kind, typ, detail string, over bool) {
 	default: // the control connection goes away
 		how := g.Intn(3)
 		kind, typ, detail = "ctl-drop", "-", []string{"close", "reset", "close mid-frame"}[how]
+		if e.race { // work connection handlers of this session are still busy (and logging) while the next login happens
+			for i := 0; i < 4; i++ {
+				_ = cs.send(&msg.ReqWorkConn{})
+			}
+			time.Sleep(5 * time.Millisecond)
+		}
 		e.dropCurrent(how)
 		over = true
 	}
@@ -1312,10 +1323,10 @@ func (e *epoch) loginStep(allowFail bool) (kind, detail string, ok bool, err err
 }
 
 // runEpoch: one child, several sessions.
-func runEpoch(seed int64, idx int, lane int, tier, directed string, steps int, dumpDir string) *epochOut {
+func runEpoch(seed int64, idx int, lane int, tier, directed string, steps int, dumpDir string, race bool) *epochOut {
 	out := &epochOut{dist: map[string]int{}, counts: map[string]int64{}}
 	ip := fmt.Sprintf("127.0.16.%d", 30+lane)
-	e := &epoch{seed: seed, idx: idx, tier: tier, directed: directed, g: hx.NewGen(seed*1000003 + int64(idx)), out: out,
+	e := &epoch{seed: seed, idx: idx, tier: tier, race: race, directed: directed, g: hx.NewGen(seed*1000003 + int64(idx)), out: out,
 		wdConn: make(chan *inConn, 64), stopBg: make(chan struct{}), loginTO: 12 * time.Second, dumpDir: dumpDir}
 	fail := func(key, what string) {
 		f := map[string]any{"key": key, "what": what, "case": e.replay()}
@@ -1344,7 +1355,11 @@ func runEpoch(seed int64, idx int, lane int, tier, directed string, steps int, d
 	} else if directed != "" {
 		st.mode.Store(1)
 	}
-	ch, ports, err := startClientChild(ip, srv.port, st.addr(), mux)
+	extraProxies := 0
+	if directed == "many-proxies-drop" {
+		extraProxies = 120
+	}
+	ch, ports, err := startClientChild(ip, srv.port, st.addr(), mux, extraProxies)
 	if err != nil {
 		fail("harness:client-child", err.Error())
 		return out
@@ -1498,6 +1513,31 @@ func (e *epoch) runDirected(out *epochOut, fail func(key, what string), runWD fu
 		}
 		cs.holeErr.Store(false)
 		runWD("directed:stun-flood", "STUN", detail)
+	case "many-proxies-drop":
+		// 136 proxies; the control connection is lost.  Every wrapper's Stop sends a CloseProxy through the transporter into
+		// the dispatcher's 100-slot send channel, which nobody drains any more once the dispatcher has ended.
+		deadline := time.Now().Add(4 * time.Second)
+		for time.Now().Before(deadline) {
+			cs.mu.Lock()
+			n := len(cs.running)
+			cs.mu.Unlock()
+			if n >= 120 {
+				break
+			}
+			time.Sleep(50 * time.Millisecond)
+		}
+		cs.mu.Lock()
+		nreg := len(cs.running)
+		cs.mu.Unlock()
+		e.step("directed:many-proxies-drop", "-", fmt.Sprintf("%d proxies registered, control connection closed by the server", nreg))
+		e.dropCurrent(0)
+		problem, _ := e.watchdog()
+		if problem != "" && !e.checkCrash("directed:many-proxies-drop") {
+			fail("frpc-wedged:close-proxy-send-blocks-after-drop", fmt.Sprintf("frpc with %d proxies does not come back after its control connection was closed: %s", nreg, problem))
+		}
+		if problem == "" {
+			e.record("directed:many-proxies-drop", "-", fmt.Sprintf("%d proxies, control connection closed, re-login and tunnel", nreg), true)
+		}
 	case "sudp-close-under-traffic":
 		// the session ends (control connection closed by the server) while user datagrams pour into the sudp visitor's port:
 		// the visitor's Close closes the channel its forwarder (pkg/proto/udp ForwardUserConn) sends on
@@ -1603,12 +1643,12 @@ func (e *epoch) directedXTCP(cs *ctlSess) {
 
 // ---- the driver ----
 
-func startClientChild(ip string, serverPort int, stunAddr string, mux bool) (*child, []int, error) {
+func startClientChild(ip string, serverPort int, stunAddr string, mux bool, extraProxies int) (*child, []int, error) {
 	m := "0"
 	if mux {
 		m = "1"
 	}
-	c, line, err := startChildProc("client", ip, fmt.Sprint(serverPort), stunAddr, m)
+	c, line, err := startChildProc("client", ip, fmt.Sprint(serverPort), stunAddr, m, fmt.Sprint(extraProxies))
 	if err != nil {
 		return nil, nil, err
 	}
@@ -1618,6 +1658,12 @@ func startClientChild(ip string, serverPort int, stunAddr string, mux bool) (*ch
 		return nil, nil, fmt.Errorf("client child: bad READY line %q", line)
 	}
 	return c, ports, nil
+}
+
+// runClientRace: clientbarrage with the weights of the race-detector pass (meant for VERIF_C16_CHILD = a -race build).
+func runClientRace(cfg *hx.RunCfg) error {
+	cfg.Extra += ";mode=race"
+	return runClientBarrage(cfg)
 }
 
 func runClientBarrage(cfg *hx.RunCfg) error {
@@ -1651,6 +1697,14 @@ func runClientBarrage(cfg *hx.RunCfg) error {
 			extra[k] = v
 		}
 	}
+	if extra["mode"] == "race" { // short epochs: many sessions, few steps each
+		perEpoch = 70
+		nEpochs = (cfg.N + perEpoch - 1) / perEpoch
+		jobs = jobs[:0]
+		for i := 0; i < nEpochs; i++ {
+			jobs = append(jobs, job{500 + i, ""})
+		}
+	}
 	for i, d := range strings.Split(extra["directed"], ",") {
 		if d != "" {
 			jobs = append(jobs, job{1000 + i, d})
@@ -1664,7 +1718,7 @@ func runClientBarrage(cfg *hx.RunCfg) error {
 		go func(lane int) {
 			defer wg.Done()
 			for j := range jobCh {
-				outs[j] = runEpoch(cfg.Seed, jobs[j].idx, lane, cfg.Tier, jobs[j].directed, perEpoch, filepath.Dir(cfg.Stats))
+				outs[j] = runEpoch(cfg.Seed, jobs[j].idx, lane, cfg.Tier, jobs[j].directed, perEpoch, filepath.Dir(cfg.Stats), extra["mode"] == "race")
 			}
 		}(l)
 	}
@@ -1710,7 +1764,7 @@ func runClientBarrage(cfg *hx.RunCfg) error {
 	sites := lockSites(extra["locks"])
 	nRaces := 0
 	seenKey := map[string]bool{}
-	frpOwned, closeSend, other := []string{}, []string{}, []string{}
+	frpOwned, closeSend, other, allowed := []string{}, []string{}, []string{}, []string{}
 	for _, o := range outs {
 		if o == nil {
 			continue
@@ -1736,16 +1790,24 @@ func runClientBarrage(cfg *hx.RunCfg) error {
 				fn := strings.TrimPrefix(key, "unprotected-send:")
 				fails = append(fails, map[string]any{"key": "frpc-crash:" + fn, "what": "race detector (frpc): a channel is closed while " + fn + " sends on it without recover (panic: send on closed channel): " + where,
 					"case": firstLines(r, 30)})
+			case wrapperPhaseRace(r):
+				// the one documented pair that stays evidence-only: Wrapper.InWorkConn reads pw.Phase outside the lock
+				// (every stored value is a string constant; see design/C16.md)
+				seenKey[key] = true
+				allowed = append(allowed, where)
 			default:
-				// frpc: recorded only (the unchanged tree's reports under this barrage are listed in design/C16.md)
+				// same rule as for the frps child: an access made by frp code in a race report is a violation
 				seenKey[key] = true
 				frpOwned = append(frpOwned, where)
+				fails = append(fails, map[string]any{"key": key, "what": "race detector (frpc): unsynchronised accesses by frp code at " + where,
+					"case": fmt.Sprintf("seed %d, clientbarrage mode %q; report:\n%s", cfg.Seed, extra["mode"], firstLines(r, 30))})
 			}
 		}
 	}
 	cfg.St["race_reports"] = nRaces
 	cfg.St["race_reports_frp_owned"] = frpOwned
 	cfg.St["race_reports_chan_close_vs_send"] = closeSend
+	cfg.St["race_reports_allowed_wrapper_phase"] = allowed
 	cfg.St["race_reports_outside_listed_tables"] = other
 	cfg.St["cases"] = len(cf.Cases)
 	cfg.St["distinct_nontrivial"] = len(distinct)
@@ -1755,4 +1817,52 @@ func runClientBarrage(cfg *hx.RunCfg) error {
 	cfg.St["counts"] = counts
 	cfg.St["impl_failures"] = fails
 	return cf.Write(cfg.Out)
+}
+
+// wrapperPhaseRace: the narrow allowlist of the frpc race rule.  True iff one access of the report is made by
+// client/proxy.(*Wrapper).InWorkConn on a source line that reads pw.Phase (checked in the source file the report names)
+// and the other by a method of the same Wrapper that assigns Phase under the lock (Stop, SetRunningStatus, checkWorker).
+func wrapperPhaseRace(report string) bool {
+	lines := strings.Split(report, "\n")
+	reader, writer := false, false
+	n := 0
+	for i, l := range lines {
+		if !raceAccessRe.MatchString(strings.TrimSpace(l)) {
+			continue
+		}
+		n++
+		end := i + 1
+		for end < len(lines) && strings.TrimSpace(lines[end]) != "" {
+			end++
+		}
+		if end < i+3 {
+			return false
+		}
+		m := raceFuncRe.FindStringSubmatch(lines[i+1])
+		f := raceFileRe.FindStringSubmatch(lines[i+2])
+		if m == nil || f == nil {
+			return false
+		}
+		switch m[1] {
+		case "github.com/fatedier/frp/client/proxy.(*Wrapper).InWorkConn":
+			file, lineNo, _ := strings.Cut(f[1], ":")
+			var ln int
+			fmt.Sscan(lineNo, &ln)
+			src, err := os.ReadFile(file)
+			if err != nil {
+				return false
+			}
+			sl := strings.Split(string(src), "\n")
+			if ln < 1 || ln > len(sl) || !strings.Contains(sl[ln-1], "pw.Phase") {
+				return false
+			}
+			reader = true
+		case "github.com/fatedier/frp/client/proxy.(*Wrapper).Stop", "github.com/fatedier/frp/client/proxy.(*Wrapper).SetRunningStatus",
+			"github.com/fatedier/frp/client/proxy.(*Wrapper).checkWorker":
+			writer = true
+		default:
+			return false
+		}
+	}
+	return n == 2 && reader && writer
 }
